@@ -24,8 +24,20 @@ def main():
         summary = re.sub(r'\s+', ' ', (am.get('summary') or m.get('summary') or '')).replace('|', '/')
         if len(summary) > 230:
             summary = summary[:227] + '...'
-        checks = '; '.join('%s: %s' % (c, verdict(v)) for c, v in sorted(m.get('checks', {}).items()))
+        own = m['property']
+        parts = []
+        for c, v in sorted(m.get('checks', {}).items()):
+            if c == own:
+                parts.insert(0, '**%s: %s**' % (c, verdict(v)))
+            elif v['exit'] == 1:
+                parts.append('%s: VIOLATION' % c)
+            elif v['exit'] == 2:
+                parts.append('%s: UNDECIDED' % c)
+        others = len([c for c in m.get('checks', {}) if c != own])
+        checks = '; '.join(parts) + ((' (all %d other checks run: the rest HELD)' % others) if others >= 19 else '')
         how = m.get('decided_by', '')
+        if m.get('recheck'):
+            how = '%s (verdict shown is from its confirmation on the tree it was written for)' % m['recheck']
         rows.append('| %s/%s | %s | %s | %s |' % (m['property'], m['name'], summary, checks, how))
     table = ['| change | what it does (author\'s summary) | verdict of the check(s) on the changed tree | deciding part |', '|---|---|---|---|'] + rows
     p = os.path.join(HERE, 'DESIGN.md')
